@@ -182,6 +182,16 @@ func runC17(c *Ctx) {
 			}
 		}
 	}
+	// the GFM model (model/GfmI.v: default parser + table, strikethrough, task list, linkify):
+	// its tree and its output against goldmark's, on these documents and on the GFM streams
+	{
+		ng := 3000
+		if !c.Quick() {
+			ng = 60000
+		}
+		gfmDocs(c, ng, func(stream string, d []byte) { items = append(items, docItem{stream, d}) })
+		gfmModelCases(c, items, 4*ng)
+	}
 	lawSweep(c, cfgs, items, "table-shape", func(d []byte) bool { return true }, func(m mdT, d []byte) (string, bool) {
 		out, e, p := convertSafe(m.md, d)
 		if e != "" || p != "" {
